@@ -667,6 +667,9 @@ func (w *verifC11World) subscribe(id int, q verifC11Q, token, authz string, old 
 		w.c.Label("pending-at-subscribe=2+")
 	}
 	w.c.Label("topic=" + q.Topic)
+	if q.HF != 0 {
+		w.c.Labelf("health-filter=%d", q.HF)
+	}
 	switch {
 	case q.Wild:
 		w.c.Label("subject=wildcard")
@@ -954,7 +957,33 @@ func (w *verifC11World) expected(s *verifC11Sub, ver *verifC11Version) verifC11Q
 	if s.restricted() {
 		r.Items = verifC11Visible(s.q, s.authz, r.Items)
 	}
+	if s.q.HF != 0 && s.q.isHealth() {
+		r.Items = verifC11HealthFiltered(s.q.HF, r.Items)
+	}
 	return r
+}
+
+// verifC11HealthFiltered applies the health filter of the direct query (Health.ServiceNodes: CheckServiceNodes.Filter):
+// an instance is left out when ANY of its checks is critical (filter 1) / is not passing (filter 2).
+func verifC11HealthFiltered(hf int, items []string) []string {
+	var out []string
+	for _, line := range items {
+		_, js, _ := strings.Cut(line, " => ")
+		var v struct {
+			Checks []struct{ Status string }
+		}
+		if err := json.Unmarshal([]byte(js), &v); err != nil {
+			panic(err)
+		}
+		drop := false
+		for _, c := range v.Checks {
+			drop = drop || (hf == 1 && c.Status == "critical") || (hf == 2 && c.Status != "passing")
+		}
+		if !drop {
+			out = append(out, line)
+		}
+	}
+	return out
 }
 
 func (s *verifC11Sub) restricted() bool { return s.authzName != "" && s.authzName != "all" }
